@@ -21,10 +21,18 @@ def main():
     d, prop, needs = os.path.abspath(sys.argv[1]), sys.argv[2], sys.argv[3]
     more = sys.argv[4:]
     patch = os.path.join(d, "patch.diff")
-    if subprocess.run("git -C /repo diff --quiet", shell=True).returncode != 0:
-        print("repo dirty")
-        return 2
-    if subprocess.run("git -C /repo apply " + patch, shell=True).returncode != 0:
+    # VERIF_REPO set: a scratch copy of /repo (used while /repo itself is busy); the copy of this
+    # script inside the scratch copy of /verif is the one to run, so that nothing touches /verif
+    repo = os.environ.get("VERIF_REPO", "/repo")
+    scratch = repo != "/repo"
+    if scratch:
+        apply_cmd, undo_cmd = "patch -p1 -s -d %s < %s" % (repo, patch), "patch -p1 -R -s -d %s < %s" % (repo, patch)
+    else:
+        apply_cmd, undo_cmd = "git -C /repo apply " + patch, "git -C /repo checkout -- ."
+        if subprocess.run("git -C /repo diff --quiet", shell=True).returncode != 0:
+            print("repo dirty")
+            return 2
+    if subprocess.run(apply_cmd, shell=True).returncode != 0:
         print("patch does not apply")
         return 2
     import shutil
@@ -55,14 +63,15 @@ def main():
                          "violation with replay" if line.startswith("VIOLATION") else
                          "ok" if line.startswith("OK") else line[:100])
     finally:
-        subprocess.run("git -C /repo checkout -- .", shell=True)
+        subprocess.run(undo_cmd, shell=True)
         # evidence written while the seeded change was applied must not replace the real evidence
         shutil.rmtree(ev, ignore_errors=True)
         shutil.copytree(evbak, ev)
     meta = {"breaks_property": prop, "needs_to_manifest": needs,
             "what_was_run": "tools/seed_validate.sh (existing suite green with the change; demonstration fails with it and passes "
-                            "without); tools/seed_record.py: git apply to /repo, one quick pipeline run (every monitor on the "
-                            "implementation's output, full correspondence), ./check of the target property, git checkout",
+                            "without); tools/seed_record.py: %s, one quick pipeline run (every monitor on the "
+                            "implementation's output, full correspondence), ./check of the target property, %s" % (
+                                ("patch applied to a scratch copy of /repo (VERIF_REPO)", "patch reversed") if scratch else ("git apply to /repo", "git checkout")),
             "quick_pipeline": {"programs": len(run.programs), "full_output_disagreements": dis,
                                "programs_rejected_by_monitor_of": dict(rej)},
             "checks": checks,
